@@ -4,6 +4,7 @@ use std::cmp::{max, min};
 use std::collections::BTreeMap;
 use std::fmt;
 
+use crate::ast::Ast;
 use crate::interpreter::{interpret, SearchResult};
 use crate::variable::{JmespathType, Variable};
 use crate::{Context, ErrorReason, JmespathError, Rcvar, RuntimeError};
@@ -13,6 +14,17 @@ use serde_json::Number;
 pub trait Function: Sync + Send {
     /// Evaluates the function against an in-memory variable.
     fn evaluate(&self, args: &[Rcvar], ctx: &mut Context<'_>) -> SearchResult;
+}
+
+/// Interprets an expression reference on behalf of the function being
+/// evaluated. Nested calls inside the reference move the error offset of the
+/// context; restore it so that an error raised afterwards by the calling
+/// function still points at that function.
+fn interpret_expref(value: &Rcvar, ast: &Ast, ctx: &mut Context<'_>) -> SearchResult {
+    let offset = ctx.offset;
+    let result = interpret(value, ast, ctx);
+    ctx.offset = offset;
+    result
 }
 
 /// Function argument types used when validating.
@@ -259,7 +271,7 @@ macro_rules! min_and_max_by {
             )
         })?;
         // Map over the first value to get the homogeneous required return type
-        let initial = interpret(&vals[0], &ast, $ctx)?;
+        let initial = interpret_expref(&vals[0], &ast, $ctx)?;
         let entered_type = initial.get_type();
         if entered_type != JmespathType::String && entered_type != JmespathType::Number {
             return Err(JmespathError::from_ctx(
@@ -275,7 +287,7 @@ macro_rules! min_and_max_by {
         // Map over each value, finding the best candidate value and fail on error.
         let mut candidate = (vals[0].clone(), initial.clone());
         for (invocation, v) in vals.iter().enumerate().skip(1) {
-            let mapped = interpret(v, &ast, $ctx)?;
+            let mapped = interpret_expref(v, &ast, $ctx)?;
             if mapped.get_type() != entered_type {
                 return Err(JmespathError::from_ctx(
                     $ctx,
@@ -734,7 +746,7 @@ impl Function for SortByFn {
             )
         })?;
         let mut mapped: Vec<(Rcvar, Rcvar)> = vec![];
-        let first_value = interpret(&vals[0], ast, ctx)?;
+        let first_value = interpret_expref(&vals[0], ast, ctx)?;
         let first_type = first_value.get_type();
         if first_type != JmespathType::String && first_type != JmespathType::Number {
             let reason = ErrorReason::Runtime(RuntimeError::InvalidReturnType {
@@ -747,7 +759,7 @@ impl Function for SortByFn {
         }
         mapped.push((vals[0].clone(), first_value));
         for (invocation, v) in vals.iter().enumerate().skip(1) {
-            let mapped_value = interpret(v, ast, ctx)?;
+            let mapped_value = interpret_expref(v, ast, ctx)?;
             if mapped_value.get_type() != first_type {
                 return Err(JmespathError::from_ctx(
                     ctx,
